@@ -231,6 +231,7 @@ func init() {
 		nl.Typ = types.NewInterfaceType(nil, nil)
 		v := s.load(st, &nl)
 		v.Typ = fn.Signature.Results().At(0).Type()
+		s.assume(Imp(st.Reach, And(s.rangeFacts(v), s.refFacts(st, v))))
 		return v
 	}
 	// time
@@ -262,6 +263,17 @@ func init() {
 		now := s.fresh("now", SInt)
 		return scalar(fn.Signature.Results().At(0).Type(), Sub(now, s.unixNano(args[0])))
 	}
+	builtinModels["time.Now"] = func(s *Session, fr *Frame, fn *ssa.Function, args []Val, st *State) Val {
+		r := s.opaqueVal(fn.Signature.Results().At(0).Type(), "now")
+		s.assume(s.rangeFacts(r))
+		// a real clock reading is never the zero Time (it carries a location / monotonic reading)
+		s.assume(Not(And(Eq(r.L[0], I(0)), Eq(r.L[1], I(0)), Eq(r.L[2], I(0)))))
+		// clock readings lie between 1970 and 2096 (0 <= ns <= 4e18): excludes int64 wrap-around in time differences
+		s.assume(And(Le(I(0), s.unixNano(r)), Le(s.unixNano(r), IStr("4000000000000000000"))))
+		s.ghostSet(st, "evres", Store(s.ghostGet(st, "evres"), s.strLit("time.Now"), s.unixNano(r)))
+		return r
+	}
+	builtinEffects["time.Now"] = map[string]string{"X:evres": arrSort(SInt)}
 	builtinModels["time.Unix"] = func(s *Session, fr *Frame, fn *ssa.Function, args []Val, st *State) Val {
 		r := s.opaqueVal(fn.Signature.Results().At(0).Type(), "tunix")
 		s.assume(s.rangeFacts(r))
